@@ -403,6 +403,9 @@ int strToInt(GenState &gs, Node *c) {
 
 int strToIntSilent(Node *c) {
   long v = std::strtol(c->tok.c_str(), NULL, 10);
+  // an out-of-range literal has already been reported by strToInt(); clamp it
+  // so that the caller can negate the result
+  if (v > INT_MAX) v = INT_MAX;
   return v;
 }
 
